@@ -5,7 +5,7 @@ import Adlt.Util.Parse
       filter: `t=0,en=1,not=0,ecu=<hex>,ecure=<0|1|->,apid=…,apidre=…,ctid=…,ctidre=…,vmm=<n>,mstp=<n>,pl=<hex>,plre=<hex>,ic=<0|1>,lmin=<n>,lmax=<n>,lcs=<a+b>`
       msg: `<ecuhex>,<ext 0|1>,<apidhex>,<ctidhex>,<vmm>,<lc>,<texthex>`
       regex table: `I<pathex>:<hayhex>:<0|1>` (ids) `T<pathex>:<hayhex>:<0|1>` (payload text) `B<pathex>` (pattern does not compile)
-    obs: `J<i>:<bits>` `D<i>:<bits>` `R<i>:<bits>` (filter i loaded from JSON / DLF / JSON round trip, one bit per message; `E` = load error,
+    obs: `J<i>:<bits>` `D<i>:<bits>` `R<i>:<bits>` `L<i>:<bits>` (filter i loaded from JSON / DLF / JSON round trip / dlt-convert list, one bit per message; `E` = load error,
          `-` = not expressible) … `S:<kept>:<passed>:<filtered>` `M:<bits>` -/
 namespace Flt
 open Util
@@ -75,7 +75,8 @@ def doLine (line : String) : String :=
       let rbits := match j with
         | some f => (match fromJson reOk (toJson f) with | some g => bits (ms.map (matchesImpl re g)) | none => "E")
         | none => "E"
-      s!"J{i}:{jbits} D{i}:{dbits} R{i}:{rbits}"
+      let lbits := if listExpressible a then bits (ms.map (matchesImpl re (fromList a))) else "-"
+      s!"J{i}:{jbits} D{i}:{dbits} R{i}:{rbits} L{i}:{lbits}"
     let allOk := js.all (·.isSome)
     let fl := js.filterMap id
     let setPart :=
@@ -99,6 +100,7 @@ def doLine (line : String) : String :=
           if find s!"J{i}:" != some want then some "FAIL:json-front-end-decides-differently"
           else if dlfExpressible a && find s!"D{i}:" != some want then some "FAIL:dlf-front-end-decides-differently"
           else if find s!"R{i}:" != some want then some "FAIL:json-round-trip-decides-differently"
+          else if listExpressible a && find s!"L{i}:" != some want then some "FAIL:list-front-end-decides-differently"
           else none).head?
       -- C12
       let c12 :=
